@@ -8,7 +8,8 @@ TRUSTED_BASE = [
     "Go toolchain, go-ipld-prime, go-ipfs-pq, go-peertaskqueue, libp2p: outside the model",
 ]
 
-HOOK_COMMITS = ['95b4529 verif hooks: expose link tracker map sizes (build tag verif)',
+HOOK_COMMITS = ['a8e40aa verif hooks: let the harness hold the peer process table lock (build tag verif)',
+                '95b4529 verif hooks: expose link tracker map sizes (build tag verif)',
                 'e1cc3da verif hooks: expose queued builder block sizes (build tag verif)',
                 'bfc4b1d verif hooks: count non-empty queued builders (build tag verif)']
 NOT_YET = {
@@ -25,9 +26,9 @@ PROPS = {
         assumptions=["nextAllocIndex does not wrap (2^64 waiting allocations)"],
     ),
     'C14': dict(
-        driver='alloc', monitors=['MON14'], proof_files=['AllocProofs.v'],
-        level_text="Theorems over the allocator model: exact immediate-grant decision rule in every state (C14_immediate_iff), no-lost-wake-up invariant after every operation of every script (C14_no_lost_wakeup), release-peer fails exactly the waiting allocations in that call (C14_release_peer_fails_waiting). Per-peer FIFO order is checked by the executable monitor_C14 on every implementation history (monitor itself validated on the model by computation, not yet by a general theorem).",
-        level_note="Partial: the FIFO clause is enforced by monitor_C14 on observed histories and by the model's structure (grants only ever take a queue head) rather than by a history-level theorem. Cross-peer grant order inside one call is not observable.",
+        driver='alloc', monitors=['MON14'], proof_files=['AllocProofs.v', 'AllocFifoProofs.v'], props=['C14', 'C14fifo'],
+        level_text="Theorems over the allocator model: exact immediate-grant decision rule in every state (C14_immediate_iff), no-lost-wake-up invariant after every operation of every script (C14_no_lost_wakeup), release-peer fails exactly the waiting allocations in that call (C14_release_peer_fails_waiting). History level: C14_monitor — the executable monitor_C14 (immediate-grant rule, every granted/failed ticket is the head of its peer's waiting queue when it is resolved, no lost wake-up after every op, release-peer fails all waiting tickets in that call) accepts every history the model can produce, for all limits and scripts; C14_monitor_enforces_request_order — any history the monitor accepts (in particular an implementation history) grants each peer's tickets in strictly increasing request order; C14_no_overtake, C14_queues_in_request_order. The same monitor is evaluated on every implementation history.",
+        level_note="Kernel-checked over the Gallina model of allocator.go, including the per-peer FIFO clause at history level. Cross-peer grant order inside one call is not observable through per-ticket channels (outcomes of one call are compared sorted by ticket; the theorem covers that sorting).",
         trusted=["go-ipfs-pq heap assumed to return a comparator-minimal element; ties are unobservable"],
         assumptions=["cross-peer order of grants inside one call is not observable through per-ticket channels and is not compared"],
     ),
@@ -46,7 +47,7 @@ PROPS = {
         assumptions=["API calls are issued one after another (the publisher's own goroutine is the only concurrency)"],
     ),
     'C08': dict(
-        driver='selval', monitors=['MON08'], proof_files=['SelWalkProofs.v'],
+        driver='selval', monitors=['MON08'], proof_files=['SelWalkProofs.v'], gens=['gsgen'],
         level_text="Theorem C08_holds: for every selector spec AST (all clause kinds incl. interpret-as, any nesting, any limits) and every accepted depth, the validator accepts iff every recursion limit anywhere in the spec is a depth <= the accepted depth. The walking selector and the default depth in the theorem are regenerated from selectorvalidator.go / impl/graphsync.go by a translator on every run, so removing or altering a clause breaks the proof; the modelled WalkMatching fragment and the visitor are tied to go-ipld-prime and to ValidateMaxRecursionDepth differentially (well-formed and mutated nodes).",
         level_note="Kernel-checked; trusted: translator gsgen (Go AST of the builder expression -> Coq term), hand model of the go-ipld-prime selector fragment (ExploreRecursive/Fields/All/Edge/Matcher under WalkMatching) and of the visitor, both compared with the real code on every run. Nodes with links in explored positions are not well-formed selectors and are not modelled.",
         trusted=["translator gsgen for GenMaxDepthSel.v", "hand model of the go-ipld-prime selector fragment used by the validator (compared differentially on well-formed and mutated nodes)"],
@@ -71,8 +72,9 @@ PROPS = {
         drive_timeout=3000,
     ),
     'C17': dict(
-        driver='peermgr', monitors=['MON17'], proof_files=['PeerMgrProofs.v'],
-        level_text="Invariant theorems over all label sequences (Connected, Disconnected, GetProcess, queue self-shutdown, late queue exit with its onShutdown callback) of the PeerManager model: at most one live queue per peer (C17_one_live), the last disconnect leaves no live queue and no table entry (C17_last_disconnect), every send is handed the table's queue (C17_get_process). The model is run against the real peermanager.PeerManager with a scripted process factory each run; the one-live/table monitor is evaluated on the implementation's snapshots.",
+        drivers=[dict(driver='peermgr', monitors=['MON17']), dict(driver='peerconc', monitors=['MON17C'])],
+        proof_files=['PeerMgrProofs.v', 'PeerMgrConcProofs.v'],
+        level_text="Invariant theorems over all label sequences (Connected, Disconnected, GetProcess, queue self-shutdown, late queue exit with its onShutdown callback) of the PeerManager model: at most one live queue per peer (C17_one_live), the last disconnect leaves no live queue and no table entry (C17_last_disconnect), every send is handed the table's queue (C17_get_process); the same with concurrent senders: GetProcess is modelled as its read-locked lookup plus its write-locked getOrCreate, a group of k concurrent calls (optionally racing one Connected/Disconnected/late-exit call) is a run of those labels, so one-live holds in every state groups can reach (C17_conc_one_live) and all concurrent senders are handed the same queue (C17_conc_same_process). The model is run against the real peermanager.PeerManager with a scripted process factory each run; the one-live/table monitor is evaluated on the implementation's snapshots; a second driver forces groups of 1-4 concurrent GetProcess callers into the all-lookups-first interleaving on the real code by holding the table lock (verif hook) until every caller is parked on it.",
         level_note="Partial: FIFO order inside one queue belongs to the message-queue model (C16); Disconnected is one atomic step in the model although the Go code calls Shutdown() on the removed process just after releasing the table lock (two adjacent statements, no blocking call in between).",
         trusted=["scripted process factory stands in for messagequeue.MessageQueue's life cycle (Startup, Shutdown, exit callback)"],
         assumptions=["Disconnected's table removal and the following Shutdown() call are treated as one step"],
